@@ -36,6 +36,9 @@ TOL = 1e-9
 THEOREMS = [
     ('EAO.Properties.C13', 'EAO.C13.merge_columns', 'merging columns along an idempotent leader map (costs summed, columns renamed, leaders compacted) is the original problem with leader bounds plus the equalities x_j = x_lead(j): rows, bounds, objective and dispatch read-out agree at z and z∘σ, and every x satisfying the equalities is such an expansion'),
     ('EAO.Properties.C13', 'EAO.C13.merge_columns_value', 'the maximised value -c·x agrees'),
+    ('EAO.Properties.C13', 'EAO.C13.makePeriodic_is_merge', 'when the groups form a partition of the variables the literal loop of __make_periodic__ equals mergeProblem along its final leader map (leader map idempotent and closed; bounds, mapping equal; costs and rows equal as linear functionals)'),
+    ('EAO.Properties.C13', 'EAO.C13.partition_of_partitionCheck', 'the partition hypothesis follows from the executable partitionCheck the driver reports'),
+    ('EAO.Properties.C13', 'EAO.C13.makePeriodic_equiv', 'hence what makePeriodic returns is the original problem with leader bounds plus the equalities: feasibility, objective, dispatch agree at z and its expansion'),
     ('EAO.Properties.C13', 'EAO.C13.periodic_groups_sound', 'a variable that makePeriodic merges into another has a mapping row in the same (asset, node≠NaN, type, var_name, duration, position) group as its leader'),
     ('EAO.Properties.C13', 'EAO.C13.periodic_groups_complete_counterexample', 'the converse fails for a coarse AND periodic asset (freq 2h, period 5h): finding F-13f'),
     ('EAO.Properties.C13', 'EAO.C13.stepLabels_length', 'one (dur, per, sub_per) label per grid step'),
@@ -469,6 +472,7 @@ def compare(case, impl_result, drv):
         m = drv.ok({'op': 'periodic', 'problem': asset_req(e['before']), 'labels': lab['labels']})
         dis += cmp_periodic('periodic call %d' % i, m, e['after'])
         e['model_out'] = m.get('out')
+        e['partition'] = m.get('partition')
     # --- with vs without (same object parameters, option removed)
     w, wo = impl_result['with'], impl_result.get('without_per')
     if wo is not None and model_labels is not None and 'err' not in wo:
@@ -914,6 +918,10 @@ def selftest(n, seed, drv, with_oracle=True, verbose=False, log=None):
             stats['with_err'] += 1
             stats['features']['err:' + r['with']['err']] = stats['features'].get('err:' + r['with']['err'], 0) + 1
         d = compare(case, r, drv)
+        for e in r['per']:
+            if e.get('partition') is not None:
+                stats['per_ok'] = stats.get('per_ok', 0) + 1
+                stats['per_partition'] = stats.get('per_partition', 0) + bool(e['partition'])
         for x in d:
             stats['disagreements'].append((tag, x))
             if verbose:
